@@ -43,7 +43,10 @@ def parse_one(text, validate, comments, kind, fetch='text'):
                 'rot13': lambda u: ('rot13', b'a{}'), 'int-content': lambda u: (None, 123), 'list-content': lambda u: (None, ['a']),
                 'int-enc': lambda u: (123, b'a{}'), 'bytes-enc': lambda u: (b'utf-8', b'a{}'), 'bool-enc': lambda u: (True, b'a{}'),
                 'float-content': lambda u: ('utf-8', 5.5), 'tuple-enc': lambda u: ((1, 2), b'a{}'), 'triple': lambda u: (None, 'a{}', 1),
-                'bytearray': lambda u: (None, bytearray(b'i{top:0}')), 'dict': lambda u: {'a': 1}, 'str': lambda u: 'a{}'}
+                'bytearray': lambda u: (None, bytearray(b'i{top:0}')), 'dict': lambda u: {'a': 1}, 'str': lambda u: 'a{}',
+                # a server that answers every URL with a sheet importing yet another URL (never the same one twice)
+                'deepening': lambda u: (None, '@import "b/a.css"; i { top: 1px }'),
+                'deepening-bytes': lambda u: ('utf-8', b'@import url(c/d.css) print; i { top: 1px }')}
 
     def oserr(u):
         raise OSError('x')
@@ -95,7 +98,7 @@ REPEAT = ['(', ')', '{', '}', '[', ']', 'a{', 'a{b:', '@media{', '@media print{a
 # a lone backslash
 ESC_TEMPLATES = ['@{}x;', '@x{} y;', '@imp{}ort "x";', '@media all{{@x{} y;}}', 'a{{@x{} y;}}', '@{} {{a:b}}', '{}a{{b:c}}', 'a{}{{b:c}}',
                  'a{{{}b:c}}', 'a{{b{}:c}}', 'a{{b:{}c}}', 'a{{b:c{}}}', 'a{{b:f{}(1)}}', 'a{{b:{}f(1)}}', 'a{{b:1p{}x}}', 'a{{b:1{}}}',
-                 'a{{b:#f{}f}}', 'a{{b:"{}"}}', "a{{b:'{}'}}", 'a{{b:url({})}}', 'a{{b:url("{}")}}', 'a{{b:u{}rl(x)}}', 'a:{}hover{{}}',
+                 'a{{b:#f{}f}}', 'a{{color:#abc{}}}', 'a{{color:#abcde{}}}', 'a{{color:#ab{}cd}}', 'a{{b:"{}"}}', "a{{b:'{}'}}", 'a{{b:url({})}}', 'a{{b:url("{}")}}', 'a{{b:u{}rl(x)}}', 'a:{}hover{{}}',
                  'a:{}not(b){{}}', 'a::{}x{{}}', 'a[{}b=c]{{}}', 'a[b={}c]{{}}', 'a.{}{{}}', 'a#{}{{}}', '{}|a{{}}', '@media {}print{{}}',
                  '@media print and ({}color){{}}', '@page :{}first{{}}', '@page {}{{}}', '@page{{@top-{}left{{}}}}', '@namespace {}p "u";',
                  '@namespace p "{}";', '@font-face{{{}src:x}}', 'a{{b:c !{}important}}', 'a{{b:c !imp{}ortant}}', '@charset "{}";',
@@ -155,7 +158,7 @@ def gen_cases(tier, seed):
         return (rnd.random() < 0.5, rnd.random() < 0.5, 'sheet' if rnd.random() < 0.7 else 'style',
                 rnd.choice(['text', 'text', 'none', 'bytes', 'weird', 'num', 'unknown-enc', 'oserror', 'rot13', 'int-content',
                             'list-content', 'int-enc', 'bytes-enc', 'bool-enc', 'float-content', 'tuple-enc', 'triple', 'bytearray',
-                            'dict', 'str']))
+                            'dict', 'str', 'deepening', 'deepening', 'deepening-bytes']))
     for _ in range(n):
         cases.append(('soup', lexgen.soup(rnd, rnd.randint(1, 30))) + settings())
     for _ in range(n):
@@ -192,10 +195,14 @@ def gen_cases(tier, seed):
             for closed in (True, False):
                 cases.append(('nested', pre + o * n + (c * n if closed else '') + post, n % 2 == 1, True,
                               'style' if not pre and rnd.random() < 0.3 else 'sheet', 'text'))
+    for t in VALIDATION_WALKS:
+        cases.append(('validation-walk', t, True, True, 'sheet', 'text'))
+        cases.append(('validation-walk', t[t.index('{') + 1:-1], True, False, 'style', 'text'))
     for pre, item, post in LONG:
         # (quadratic behaviour - inserting and serialising thousands of rules - is polynomial: longer runs are judged by the
         # growth measurement, not by the absolute limit)
-        for n in (1200,):
+        # (digit runs also beyond the 4300 digits CPython converts between int and str)
+        for n in ((1200, 5000) if item in ('9', '0', '1') else (1200,)):
             cases.append(('long', pre + item * n + post, True, True, 'sheet', 'text'))
             cases.append(('long', pre + item * n + post, False, False, 'style' if pre.startswith('a{x') else 'sheet', 'text'))
     # an @charset rule naming every codec Python's registry knows (text encodings, bytes-to-bytes and str-to-str transforms,
@@ -210,7 +217,7 @@ def gen_cases(tier, seed):
                       'sheet', 'text'))
     # every @import whose fetcher answer has an odd shape, and hrefs the URL library refuses
     for f in sorted(set(['rot13', 'int-content', 'list-content', 'int-enc', 'bytes-enc', 'bool-enc', 'float-content', 'tuple-enc', 'triple',
-                         'bytearray', 'dict', 'str'])):
+                         'bytearray', 'dict', 'str', 'deepening', 'deepening', 'deepening-bytes'])):
         cases.append(('fetch', '@import "x.css"; a{top:0}', True, True, 'sheet', f))
     for t in ['@import "http://[a";', '@import url(//[);', '@import "http://a]b/";', '@import "http://[::1";', '@import "http://h:x/";',
               '@import "\0";', '@variables { /*c*/ a: 1; a: 2 }', '@variables { a: 1; /*c*/ a: 2; /*d*/ a: 3 } b{x:var(a)}']:
@@ -246,6 +253,15 @@ def growth_case(pattern, what):
         return 'running time for %r x (150, 300, 600) repetitions: %s s — grows faster than n^3' % (
             pattern, ['%.2f' % t for t in times]), ratio
     return '', ratio
+
+
+# values that walk the repeated groups of the flagged validation patterns and end in something invalid: with validation
+# on, time must stay polynomial (voice-family and list-style did not before repairs 3e7d00c / 4795326)
+VALIDATION_WALKS = ['a{voice-family: ' + 'a' * 60 + ' 1}', 'a{voice-family: ' + 'male, ' * 40 + '1}', 'a{list-style: ' + 'none ' * 60 + '1}',
+                    'a{list-style: ' + 'inherit ' * 60 + '1}', 'a{font-family: ' + 'serif, ' * 60 + '1}', 'a{font: 1px ' + 'serif, ' * 60 + '1}',
+                    'a{content: ' + '"a" ' * 60 + '1x}', 'a{counter-increment: ' + 'a 1 ' * 60 + '!}', 'a{counter-reset: ' + 'a ' * 60 + '"}',
+                    'a{quotes: ' + '"a" "b" ' * 60 + '1}', 'a{page: ' + 'a' * 60 + ' 1}', '@font-face{src: ' + 'local(a), ' * 60 + '1}',
+                    '@font-face{font-family: ' + 'a ' * 60 + '1}']
 
 
 VALIDATION_REDOS = {
